@@ -157,9 +157,11 @@ def check_order_independence(run, rule, analyses):
     else:
         in_loop = [c for c in ir.calls_in(mr.loop) if callee_qn(c) == "CDNS::Timestamp::add_time_offset"]
         after = [c for s in top[top.index(mr.loop) + 1:] for c in ir.calls_in(s) if callee_qn(c) == "CDNS::Timestamp::add_time_offset"]
-        ok = not in_loop and len(after) >= 2
+        # (that the offsets are resolved at all, and against which reference, is R01.4 / R17.5; reads of the preamble or the
+        # parameters from inside a case are reported by the cases-independent obligations above whatever form they take)
+        ok = not in_loop
         run.ob(rule, "CdnsBlockRead::read:offset-after-loop", ok, f, (in_loop or after or [f])[0].get("l", f["line"]) if (in_loop or after) else f["line"],
-               "time offsets are resolved after the whole block map was read (%d sites)" % len(after) if ok else
+               "no time offset is resolved while the block map is still being read (%d sites after it)" % len(after) if ok else
                "add_time_offset is applied inside the member loop: the result depends on whether the preamble/parameters member came first")
         # default parameter selection (index absent) also after the loop
         pre = [lp for lp, rhs, node in consumption.assignment_targets(top[top.index(mr.loop) + 1:]) if lp == ("this", "m_block_parameters")]
